@@ -79,7 +79,7 @@ claim("C14", "proof",
       "three eos modes, constant-evaluation static_asserts.",
       TB, "Coq proof (list functions) + exhaustive small-scope differential correspondence")
 claim("C15", "proof",
-      "Coq theorems (Properties_C15.v) prove for every width 8/16/32/64, every index inside the width and every underlying value that the model of bitset_base get_bit/set_bit (written through CInt.v, i.e. with C++ integral promotion and shift UB) reads exactly bit n and changes exactly bit n; raw value/equality/visit corollaries. Tied to /repo by running the extracted model and the real bitset_base<T> plus sbeppc-generated set classes (named, by-tag, visit, ==) on the same cases (8/16 bit exhaustive values, patterns for 32/64), under g++ C++11/17(UBSan)/20 and as static_asserts (constant evaluation). The harness schema also has sparse sets with gaps and out-of-order bit indices, and both the tag-based visit and the name-based visit_set are compared. The setter's return value is checked to be the very object it was called on (chaining). SOURCE TRANSLATOR (harness/srcexprs.py -> coq/SrcExprs.v, regenerated on every run from clang's typed AST of /repo's bitset_base<T>::operator()(get_bit_tag / set_bit_tag) for T = uint8..uint64): the regenerated expressions ARE the hand-written model for all arguments (C15_source_is_the_model), the stored value has exactly bit n changed and the getter reads exactly its own bit (C15_source_bit_independent, C15_source_get_bit_is_testbit).",
+      "Coq theorems (Properties_C15.v) prove for every width 8/16/32/64, every index inside the width and every underlying value that the model of bitset_base get_bit/set_bit (written through CInt.v, i.e. with C++ integral promotion and shift UB) reads exactly bit n and changes exactly bit n; raw value/equality/visit corollaries. Tied to /repo by running the extracted model and the real bitset_base<T> plus sbeppc-generated set classes (named, by-tag, visit, ==) on the same cases (8/16 bit exhaustive values, patterns for 32/64), under g++ C++11/17(UBSan)/20 and as static_asserts (constant evaluation). The harness schema also has sparse sets with gaps and out-of-order bit indices, and both the tag-based visit and the name-based visit_set are compared. The setter's return value is checked to be the very object it was called on (chaining). SOURCE TRANSLATOR (harness/srcexprs.py -> coq/SrcExprs.v, regenerated on every run from clang's typed AST of /repo's bitset_base<T>::operator()(get_bit_tag / set_bit_tag) for T = uint8..uint64): the regenerated expressions ARE the hand-written model for all arguments (C15_source_is_the_model), the stored value has exactly bit n changed and the getter reads exactly its own bit (C15_source_bit_independent, C15_source_get_bit_is_testbit); the friend operator== / != compare the underlying values, so equality holds exactly when every choice getter agrees (C15_source_equality_consistent, C15_source_equality_is_value_equality).",
       TB, "Coq proof (Z.testbit algebra over a CInt model) + differential correspondence vs extracted model + expression-level source translator (clang AST -> Coq terms, theorems about the regenerated terms)")
 claim("C19", "proof",
       "Theorems (Properties_C19.v): a complete visit of the image of any well-formed value tree reports exactly ev_level "
